@@ -124,6 +124,8 @@ func govcBuild(t reflect.Type, m map[string]string, prefix string, depth int) re
 	return v
 }
 
+var govcStack string
+
 func govcCall(fn interface{}, names []string, m map[string]string) (panicked interface{}, results []reflect.Value) {
 	f := reflect.ValueOf(fn)
 	t := f.Type()
@@ -131,7 +133,12 @@ func govcCall(fn interface{}, names []string, m map[string]string) (panicked int
 	for i := 0; i < t.NumIn(); i++ {
 		args = append(args, govcBuild(t.In(i), m, names[i], 0))
 	}
-	defer func() { panicked = recover() }()
+	defer func() {
+		panicked = recover()
+		if panicked != nil {
+			govcStack = string(debug.Stack())
+		}
+	}()
 	if t.IsVariadic() {
 		results = f.CallSlice(args)
 	} else {
@@ -175,7 +182,9 @@ package %s
 import (
 	"fmt"
 	"reflect"
+	"runtime/debug"
 	"strconv"
+	"strings"
 	"testing"
 	"unsafe"
 )
@@ -190,14 +199,17 @@ func TestGovcReplay(t *testing.T) {
 		model[k] = v
 	}
 	p, _ := govcCall(%s, []string{%s}, model)
-	if p != nil {
-		t.Logf("GOVC-REPLAY: panic reproduced: %%v", p)
+	if p != nil && strings.Contains(govcStack, %q) {
+		t.Logf("GOVC-REPLAY: panic reproduced at the obligation's site: %%v", p)
 		fmt.Println("GOVC-REPLAY-CONFIRMED")
 		return
 	}
+	if p != nil {
+		t.Logf("GOVC-REPLAY: a different panic occurred (the model's inputs could not be built faithfully): %%v", p)
+	}
 	fmt.Println("GOVC-REPLAY-NOT-REPRODUCED")
 }
-`, string(mb), r.Name, o.Solver, strings.Join(o.Trace, " "), o.ReplayPkgName, replayRuntime, o.Model, o.ReplayFn, strings.Join(names, ", "))
+`, string(mb), r.Name, o.Solver, strings.Join(o.Trace, " "), o.ReplayPkgName, replayRuntime, o.Model, o.ReplayFn, strings.Join(names, ", "), siteMarker(r.Pos))
 	os.WriteFile(path, []byte(src), 0o644)
 	ok, out := runReplayFile(repo, path)
 	if !ok {
@@ -248,4 +260,13 @@ func runReplayFile(repo, path string) (bool, string) {
 	out, _ := cmd.CombinedOutput()
 	s := string(out)
 	return strings.Contains(s, "GOVC-REPLAY-CONFIRMED"), s
+}
+
+// siteMarker turns "net/net.go:431" into "/net.go:431", the form in which the frame appears in a Go stack trace.
+func siteMarker(pos string) string {
+	i := strings.LastIndex(pos, "/")
+	if i < 0 {
+		return "/" + pos
+	}
+	return pos[i:]
 }
